@@ -23,3 +23,84 @@ Definition check_bundle (c : bundle_case) : list string :=
   bundle_complete_tags (bc_archs c) (bc_included c) ++
   tag_if (negb (list_eqb Bool.eqb (bundle_included (bc_ntags c) (bc_archs c)) (bc_included c)))
          "mismatch:bundle-included-images".
+
+(* ---- config ----------------------------------------------------------------------- *)
+(* [cc_shlex]: the real shlex.Split on the command strings of the case
+   (None = it returned an error); [cc_rfc3339]: the real created.Format(time.RFC3339);
+   [co_cfg]: the config read back from the built image's config JSON *)
+Record config_case := {
+  cc_ic : image_config; cc_base : oci_config; cc_created : Z; cc_arch : string;
+  cc_shlex : list (string * option (list string)); cc_rfc3339 : string;
+  co_err : bool; co_cfg : oci_config }.
+
+Definition oracle_shlex (tbl : list (string * option (list string))) (s : string) : option (list string) :=
+  match alookup s tbl with Some r => r | None => None end.
+
+Definition str_list_eqb := list_eqb String.eqb.
+Definition same_set (a b : list string) : bool := incl_b a b && incl_b b a.
+Definition labels_eqb (a b : list (string * string)) : bool :=
+  list_eqb (fun x y => String.eqb (fst x) (fst y) && String.eqb (snd x) (snd y)) (isort fst a) (isort fst b).
+
+Definition config_diff (m o : oci_config) : list string :=
+  tag_if (negb (String.eqb (oc_author m) (oc_author o))) "mismatch:config-author" ++
+  tag_if (negb (String.eqb (oc_os m) (oc_os o))) "mismatch:config-os" ++
+  tag_if (negb (String.eqb (oc_architecture m) (oc_architecture o) && String.eqb (oc_variant m) (oc_variant o))) "mismatch:config-platform" ++
+  tag_if (negb (Z.eqb (oc_created m) (oc_created o))) "mismatch:config-created" ++
+  tag_if (negb (str_list_eqb (oc_entrypoint m) (oc_entrypoint o))) "mismatch:config-entrypoint" ++
+  tag_if (negb (str_list_eqb (oc_cmd m) (oc_cmd o))) "mismatch:config-cmd" ++
+  tag_if (negb (String.eqb (oc_workdir m) (oc_workdir o))) "mismatch:config-workdir" ++
+  tag_if (negb (String.eqb (oc_user m) (oc_user o))) "mismatch:config-user" ++
+  tag_if (negb (String.eqb (oc_stop_signal m) (oc_stop_signal o))) "mismatch:config-stop-signal" ++
+  tag_if (negb (same_set (oc_volumes m) (oc_volumes o))) "mismatch:config-volumes" ++
+  tag_if (negb (str_list_eqb (oc_env m) (oc_env o))) "mismatch:config-env" ++
+  tag_if (negb (labels_eqb (oc_labels m) (oc_labels o))) "mismatch:config-labels".
+
+Definition check_config (c : config_case) : list string :=
+  let shlex := oracle_shlex (cc_shlex c) in
+  let rfc := fun _ : Z => cc_rfc3339 c in
+  let dord := akeys default_env in
+  let eord := akeys (with_defaults default_env dord (ic_env (cc_ic c))) in
+  (* the map-order parameters must not matter: also run the model with both orders reversed *)
+  let dord' := rev dord in
+  let eord' := rev (akeys (with_defaults default_env dord' (ic_env (cc_ic c)))) in
+  (if co_err c then []
+   else config_tags shlex rfc (expected_platform (cc_arch c)) (cc_base c) (cc_ic c) (cc_created c) (co_cfg c)) ++
+  match build_config shlex rfc (cc_base c) (cc_ic c) (cc_created c) (cc_arch c) dord eord,
+        build_config shlex rfc (cc_base c) (cc_ic c) (cc_created c) (cc_arch c) dord' eord' with
+  | Ok m, Ok m' =>
+      if co_err c then ["mismatch:model-succeeds-impl-fails"]
+      else config_diff m (co_cfg c) ++ tag_if (negb (str_list_eqb (oc_env m) (oc_env m'))) "mismatch:model-order-dependent"
+  | Err, Err => tag_if (negb (co_err c)) "mismatch:model-fails-impl-succeeds"
+  | _, _ => ["mismatch:model-inconsistent"]
+  end.
+
+(* ---- index ------------------------------------------------------------------------ *)
+(* [xc_keys]: requested architecture keys; [xo_manifests]: per manifest of the
+   generated index, in order: (key of the image whose digest the descriptor
+   carries, platform architecture, variant, os); [xo_annotations]: the index
+   manifest's annotations *)
+Record index_case := {
+  xc_keys : list string; xc_docker : bool; xc_ic : image_config; xc_created : Z; xc_rfc3339 : string;
+  xo_manifests : list (string * (string * string * string));
+  xo_annotations : list (string * string) }.
+
+Definition entry_eqb (a b : string * (string * string * string)) : bool :=
+  match a, b with (k, (x, v, o)), (k', (x', v', o')) =>
+    String.eqb k k' && String.eqb x x' && String.eqb v v' && String.eqb o o' end.
+
+Definition check_index (c : index_case) : list string :=
+  let rfc := fun _ : Z => xc_rfc3339 c in
+  let model := List.map (fun e => (ie_key e, (ie_arch e, ie_variant e, ie_os e)))
+                 (generate_index (List.map (fun k => (k, tt)) (xc_keys c)) (xc_keys c)) in
+  let model' := List.map (fun e => (ie_key e, (ie_arch e, ie_variant e, ie_os e)))
+                 (generate_index (List.map (fun k => (k, tt)) (xc_keys c)) (rev (xc_keys c))) in
+  let want_ann := if xc_docker c then []
+                  else index_annotations rfc (ic_vcs_url (xc_ic c)) (xc_created c) (ic_annotations (xc_ic c)) in
+  index_tags expected_platform (xc_keys c) (xo_manifests c) ++
+  tag_if (negb (xc_docker c) &&
+          negb (forallb (fun k => option_eqb String.eqb (alookup k (xo_annotations c)) (expected_label rfc (xc_ic c) (xc_created c) k))
+                        ([created_key; revision_key; source_key] ++ akeys (ic_annotations (xc_ic c)) ++ akeys (xo_annotations c))))
+         "viol:index-annotations" ++
+  tag_if (negb (list_eqb entry_eqb model (xo_manifests c))) "mismatch:index-manifests" ++
+  tag_if (negb (list_eqb entry_eqb model model')) "mismatch:model-order-dependent" ++
+  tag_if (negb (labels_eqb want_ann (xo_annotations c))) "mismatch:index-annotations".
